@@ -118,11 +118,15 @@ pub fn judge_pair(h: &History) -> Result<(u32, bool), Failure> {
             let d = if txa.len() == txb.len() && !txa.is_empty() { format!("uplink {} vs {}", hex(&txa[0].0), hex(&txb[0].0)) } else { format!("{} vs {} transmissions", txa.len(), txb.len()) };
             return Err(fail("uplink", d));
         }
-        if a.outcome != b.outcome {
+        // Class C listening on a device without a session is not a receive opportunity (the call reports
+        // NotJoined as soon as anything at all is heard, and would otherwise wait forever): the
+        // response of that call is outside the statement, everything after it is still compared
+        let unjoined_listen = matches!(a.step, Step::RxcListen(_)) && !a.snap_before.joined;
+        if a.outcome != b.outcome && !unjoined_listen {
             return Err(fail("response", format!("{} vs {}", a.outcome.text(), b.outcome.text())));
         }
         let in_oversize = oversize_at.iter().any(|(i, _)| *i == a.index);
-        if !in_oversize {
+        if !in_oversize && !unjoined_listen {
             let (na, nb) = (norm(&a.trace, true), norm(&b.trace, true));
             if na != nb {
                 let k = na.iter().zip(nb.iter()).position(|(x, y)| x != y).unwrap_or(na.len().min(nb.len()));
@@ -214,6 +218,7 @@ pub fn run(ctx: &mut Ctx) {
     ctx.assumptions = vec![
         "async receive windows are single-shot: a rejected frame replaces the time-out of that window; in nb windows and Class C gaps frames are additional".into(),
         "for a transaction in which an oversize frame ended the receive procedure, only the uplink, the response, the following transactions and the states are compared".into(),
+        "rxc_listen() on a device without a session is not a receive opportunity: it reports NotJoined as soon as any frame is heard; the response of that call is not compared (states and everything later are)".into(),
     ];
     let cases = ctx.tier.pick(40_000u32, 1_000_000);
     let seed = ctx.seed;
